@@ -468,11 +468,24 @@ int main(int argc, char **argv)
 		if (!v_mine(unit++))
 			continue;
 		for (int k = 1; k <= mm; k++) {
-			static uint8_t a[256 * 256];
+			/* the matrix is exactly m*k bytes and ends at an inaccessible page (canaries in front): nothing outside it may be written, also for
+			 * the degenerate shapes m == k (no parity row) */
+			uint8_t *a = g_alloc((size_t)mm * k, G_END);
 			char key[128];
 			if (mm <= 255) {
 				memset(a, 0xEE, mm * k);
-				gf_gen_rs_matrix(a, mm, k);
+				int gfault = 0;
+				if (V_TRY()) {
+					gf_gen_rs_matrix(a, mm, k);
+					V_END();
+				} else
+					gfault = 1;
+				if (gfault || g_check()) {
+					snprintf(key, sizeof key, "gf_gen_rs_matrix writes outside the matrix m=%d k=%d", mm, k);
+					v_violation(key, "%s", gfault ? v_fault_desc() : g_last_damage());
+					g_reset();
+					continue;
+				}
 				int ok = 1;
 				for (int i = 0; i < mm && ok; i++)
 					for (int j = 0; j < k && ok; j++) {
@@ -486,7 +499,20 @@ int main(int argc, char **argv)
 				}
 			}
 			memset(a, 0xEE, mm * k);
-			gf_gen_cauchy1_matrix(a, mm, k);
+			{
+				int gfault = 0;
+				if (V_TRY()) {
+					gf_gen_cauchy1_matrix(a, mm, k);
+					V_END();
+				} else
+					gfault = 1;
+				if (gfault || g_check()) {
+					snprintf(key, sizeof key, "gf_gen_cauchy1_matrix writes outside the matrix m=%d k=%d", mm, k);
+					v_violation(key, "%s", gfault ? v_fault_desc() : g_last_damage());
+					g_reset();
+					continue;
+				}
+			}
 			int ok = 1;
 			for (int i = 0; i < mm && ok; i++)
 				for (int j = 0; j < k && ok; j++) {
@@ -498,6 +524,7 @@ int main(int argc, char **argv)
 				snprintf(key, sizeof key, "gf_gen_cauchy1_matrix formula m=%d k=%d", mm, k);
 				v_violation(key, "identity top block or 1/(i^j) formula violated");
 			}
+			g_reset();
 		}
 		v_nontrivial(v_mix(77, mm));
 	}
